@@ -297,6 +297,8 @@ pub enum PerturbMode {
     Consistent,
     /// every simulation of this frame mixes a fresh counter into the state
     Nondet,
+    /// only the k-th simulation of this frame (1 = the first, live one) computes a different result
+    NondetOnce(u32),
 }
 
 #[derive(Serialize, Deserialize, Clone, Debug, PartialEq)]
